@@ -52,7 +52,36 @@ SYS = {
  "C14": [("check targets", "check", BASE + ["BreakExt", "Taint"], ["copy", "fail", "noest", "unest", "omit"], ["all"], ["ALL", "n"], 3, 4, False)],
  "C15": [("diamond minimal", "diamond", BASE + ["Taint", "ToggleNoCache", "Perturb", "EditFingerprint"], ["copy", "const", "fail"], ["minimal"], ["ALL", "d"], 3, 4, False),
          ("alias minimal", "alias", BASE + ["Retarget", "Taint", "ToggleNoCache"], ["copy", "const"], ["minimal"], ["ALL", "c"], 3, 4, False)],
- "C05": [("diamond failures", "diamond", BASE, ["copy", "fail", "omit", "slow"], ["all"], ["ALL", "d"], 3, 4, False)],
+ "C05": [("diamond failures", "diamond", BASE, ["copy", "fail", "omit", "slow"], ["all"], ["ALL", "d"], 3, 4, False),
+         ("check failures", "check", BASE + ["BreakExt", "Taint"], ["copy", "fail", "noest", "unest", "omit"], ["all"], ["ALL", "n"], 3, 4, False)],
+ "C03": [("diamond all/minimal", "diamond", BASE + ["Taint", "ToggleNoCache", "Perturb", "DropBlob"], ["copy", "const"], ["all", "minimal"], ["ALL", "d"], 3, 4, False)],
+}
+
+# canonical batches (TLC model-checking mode over GrogBuildGen with Canonical = style): full build ; k actions ; build, where the
+# actions are "kinds" = one of each kind in the fixed order edit, taint, break, drop blob, perturb, platform, relocate, or
+# "sink" = increasing in (kind, target), edits only of the last target, perturbations only deletions. depth 0 = not in that tier.
+CANON = {
+ "C15": [("diamond minimal: edit of the sink, dropped blobs, deleted outputs", "diamond", ["EditInput", "Build", "DropBlob", "Perturb"], ["copy"], ["minimal"], ["ALL"], "sink", 6, 7, False),
+         ("alias minimal: edit of the sink, dropped blobs, deleted outputs", "alias", ["EditInput", "Build", "DropBlob", "Perturb"], ["copy"], ["minimal"], ["ALL"], "sink", 0, 6, False),
+         ("diamond minimal: edit, dropped blob, perturbation", "diamond", ["EditInput", "Build", "DropBlob", "Perturb"], ["copy"], ["minimal"], ["ALL"], "kinds", 0, 5, False),
+         ("alias minimal: edit, dropped blob, perturbation", "alias", ["EditInput", "Build", "DropBlob", "Perturb"], ["copy"], ["minimal"], ["ALL", "c"], "kinds", 0, 5, False)],
+ "C02": [("diamond: edit, dropped blob, perturbation, relocation", "diamond", ["EditInput", "Build", "DropBlob", "Perturb", "Relocate"], ["copy"], ["all"], ["ALL"], "kinds", 0, 6, False),
+         ("diamond: edit of the sink, dropped blobs, deleted outputs", "diamond", ["EditInput", "Build", "DropBlob", "Perturb"], ["copy"], ["all"], ["ALL"], "sink", 0, 6, False)],
+ "C01": [("diamond: edit, taint, perturbation", "diamond", ["EditInput", "Build", "Taint", "Perturb"], ["copy"], ["all"], ["ALL"], "kinds", 0, 5, True)],
+}
+
+# shaped batches: every history of the given shape (B = build, A = any other enabled action; the first build is the full one)
+PAIR_Q = ["EditSwap", "Build", "ToggleNoCache", "Taint"]
+PAIR_T = ["EditInput", "EditSwap", "EditCmd", "Build", "ToggleNoCache", "Taint"]
+# a target with two outputs (one per input), its outputs exchanged by exchanging its inputs; cached, no-cache and tainted; both
+# completion orders of the two output digests (the second run delays the first output's digest in every other build: schedules the
+# pool may produce).
+# (label, template, quick (acts, shape), thorough [(acts, shape), ...], commands, modes, selections, literal clean build)
+SHAPES = {
+ "C01": [("pair: two outputs exchanged / no-cache / taint", "pair", (PAIR_Q, "BABAB"), [(PAIR_T, "BABAB"), (PAIR_Q, "BAABAB")], ["copy", "const"], ["all"], ["ALL"], True)],
+ "C02": [("pair: two outputs exchanged / no-cache / taint", "pair", (PAIR_Q, "BABAB"), [(PAIR_T, "BABAB"), (PAIR_Q, "BAABAB")], ["copy", "const"], ["all"], ["ALL"], False)],
+ "C13": [("pair: two outputs exchanged / no-cache / taint", "pair", (PAIR_Q, "BABAB"), [(PAIR_T + ["BuildCacheOff"], "BABAB"), (PAIR_Q, "BAABAB")], ["copy", "const"], ["all"], ["ALL"], False)],
+ "C15": [("pair minimal: two outputs exchanged / no-cache / taint", "pair", (PAIR_Q, "BABAB"), [(PAIR_T, "BABAB"), (PAIR_Q, "BAABAB")], ["copy", "const"], ["minimal"], ["ALL"], False)],
 }
 
 
@@ -73,6 +102,19 @@ def run(chk, tmp, prop):
         res, hs = be.generate(tmp, f"s{j}", template, acts, cmds, modes, sels, dq if quick else dt, 0, chk.seed, systematic=True)
         chk.add_tlc(f"GrogBuildGen systematic (full build; {(dq if quick else dt) - 2} action(s); build): {label}", res, histories=len(hs))
         be.run_histories(chk, tmp, grog, hs, prop, lit, "systematic " + label)
+    for j, (label, template, acts, cmds, modes, sels, style, dq, dt, lit) in enumerate(CANON.get(prop, [])):
+        if (dq if quick else dt) == 0:
+            continue
+        res, hs = be.generate(tmp, f"c{j}", template, acts, cmds, modes, sels, dq if quick else dt, 0, chk.seed, systematic=True, canonical=style)
+        chk.add_tlc(f"GrogBuildGen canonical/{style} (full build; {(dq if quick else dt) - 2} actions; build): {label}", res, histories=len(hs))
+        be.run_histories(chk, tmp, grog, hs, prop, lit, "canonical " + label)
+    for j, (label, template, qs, ts, cmds, modes, sels, lit) in enumerate(SHAPES.get(prop, [])):
+        for jj, (acts, shape) in enumerate([qs] if quick else ts):
+            res, hs = be.generate(tmp, f"h{j}_{jj}", template, acts, cmds, modes, sels, 0, 0, chk.seed, shape=shape)
+            chk.add_tlc(f"GrogBuildGen shaped ({shape}): {label}", res, histories=len(hs))
+            be.run_histories(chk, tmp, grog, hs, prop, lit, f"shaped {shape} {label}")
+            be.run_histories(chk, tmp, grog, hs, prop, False, f"shaped {shape}, first output digest delayed in every other build: {label}",
+                             opts_of=lambda i: {"workers": 1 + i % 4, "hash": ["", "sha256"][i % 2], "delay_alt": "outhash.pr_p_o0/1=60"})
     if prop == "C13":
         # the taint marker is cleared by a goroutine nobody waits for: with a slow backend Delete (modelled by a delay at the
         # hook in front of it) the process may exit first; the specification says the successful execution consumes the taint
